@@ -8,12 +8,11 @@ TRANSLATORS = [t2_gql_tokens.translate]
 LEAN_MODULES = ["IsoVerif.Props.C09"]
 _P = "IsoVerif.Props.C09."
 THEOREMS = [_P + t for t in (
-    "C09_witness_apostrophe", "C09_statement_false", "C09_witness_undeclared_nested_variable",
-    "C09_witness_undeclared_nested_variable_repaired", "C09_witness_object_replaced_by_variable",
-    "C09_witness_negative_int_alias", "C09_witness_alias_collision", "C09_fixed_non_null_list_variable",
-    "C09_fixed_unused_pointer_variable", "C09_plain_valid", "C09_js_embedding", "C09_distinct_keys_merge",
-    "C09_declared_eq_used_partial", "C09_declared_subset_used", "C09_witness_nested_variable_not_collected",
-    "C09_valid_partial")]
+    "C09_witness_apostrophe", "C09_statement_false", "C09_fixed_undeclared_nested_variable",
+    "C09_fixed_object_replaced_by_variable", "C09_witness_negative_int_alias", "C09_witness_alias_collision",
+    "C09_fixed_non_null_list_variable", "C09_fixed_unused_pointer_variable", "C09_plain_valid", "C09_js_embedding",
+    "C09_distinct_keys_merge", "C09_declared_eq_used", "C09_declared_eq_used_before_repair",
+    "C09_fixed_nested_variable_not_collected", "C09_valid_partial")]
 HARNESS = ("hx_ops", {"HX_ENGINE": "c09"})
 DRIVER = "drv_ops"
 CASES = {"quick": 300, "thorough": 6000}
@@ -26,10 +25,11 @@ LEVEL_TEXT = ("Kernel-checked for every input: `export default '<text>';` evalua
               "printer's backslash+LF continuations removed whenever the text has no apostrophe, carriage return or other backslash/line feed "
               "(C09_js_embedding); a selection set with pairwise distinct response names passes FieldsInSetCanMerge for every schema "
               "(C09_distinct_keys_merge); the variables the compiler collects from a merged selection map (and declares) are exactly the "
-              "variables the printed operation uses when no variable is nested in an object/list argument, and always a subset of them "
-              "(C09_declared_eq_used_partial, C09_declared_subset_used); composition C09_valid_partial. Kernel-evaluated closed facts: the "
-              "operations the real compiler prints for the F11/F12/F12b/F13 witness programs do not parse / are invalid / are not JavaScript, "
-              "the repaired forms are valid. The property itself is evaluated by the driver on every query_text.ts / "
+              "variables the printed operation uses, for every map (C09_declared_eq_used; before the repair af3b32d only without nested "
+              "variables: C09_declared_eq_used_before_repair, with the F12 map as the counterexample); composition C09_valid_partial. Kernel-evaluated closed facts: the "
+              "operations the real compiler prints for the F11/F13 witness programs do not parse / are invalid / are not JavaScript; the "
+              "operations it printed for the F12/F12b, non-null-list and pointer-variable programs before the repairs are invalid, the ones "
+              "it prints now are valid. The property itself is evaluated by the driver on every query_text.ts / "
               "__refetch__query_text__N.ts the real compiler writes: node's value of the module must equal the model's jsValue, must parse "
               "with the reference parser and pass validation against the schema file the compiler read.")
 LEVEL_NOTE = ("Trusted: Lean kernel; t2_gql_tokens (the reference lexer itself is hand-written from the spec and does not use the table); "
@@ -39,8 +39,9 @@ LEVEL_NOTE = ("Trusted: Lean kernel; t2_gql_tokens (the reference lexer itself i
               "the implementation's strings on every run instead.")
 PARTIAL = ["no model of the whole compile step: the theorems are about the artifact text, the merged selection map and the validator; "
            "C09_valid_partial takes the parse and validity of the text as hypotheses",
-           "F11 (negative int / collapsing string aliases), F12, F12b (variables inside object arguments), F13 (apostrophe), "
-           "user variable named `id`, required input-object fields: open findings with witness theorems or corpus cases",
+           "F11 (negative int / collapsing string aliases), F13 (apostrophe), user variable named `id`, required input-object fields: "
+           "open findings with witness theorems or corpus cases; F12 / F12b (variables inside object arguments), non-null list variables "
+           "and unused variables below client pointers were repaired (af3b32d, e06371c, 31b992f)",
            "custom scalars accept any literal; directives other than @skip/@include are reported as unknown (the compiler emits none)",
            "persisted documents (compact text in persisted_documents.json) are covered by C26, not here"]
 ASSUMPTIONS = ["ECMAScript 2019+ string literal semantics in strict mode (U+2028/2029 allowed unescaped, octal escapes are errors)",
